@@ -6,6 +6,7 @@ package main
 // rely on (for countingWriter: "n counts exactly the bytes handed to w") could be broken there.
 
 import (
+	"fmt"
 	"go/types"
 
 	"golang.org/x/tools/go/ssa"
@@ -172,4 +173,37 @@ func capturedLocallyOnly(x *ssa.Alloc) bool {
 		}
 	}
 	return true
+}
+
+// checkVisitsAll: `loop K visits_all` - every edge that leaves loop K starts at its header (the
+// range is exhausted / the condition is false); a break or return inside the body is a failed
+// obligation.
+func (c *FnCtx) checkVisitsAll(frame *Frame) {
+	for _, k := range c.contract.VisitsAll {
+		var l *Loop
+		for _, x := range frame.loops {
+			if x.Ord == k {
+				l = x
+			}
+		}
+		if l == nil {
+			c.errs = append(c.errs, fmt.Sprintf("contract mentions loop %d but the function has %d loops", k, len(frame.loops)))
+			continue
+		}
+		for b := range l.Blocks {
+			if b == l.Header {
+				continue
+			}
+			for _, s := range b.Succs {
+				if !l.Blocks[s] {
+					pos := c.fn.Pos()
+					if len(b.Instrs) > 0 {
+						pos = b.Instrs[len(b.Instrs)-1].Pos()
+					}
+					c.obligs = append(c.obligs, &Oblig{Name: fmt.Sprintf("%s#loop%d:visits_all", c.key, k), Kind: "loop", Goal: "false", NDecl: -1,
+						Pos: c.pos(pos), Text: fmt.Sprintf("loop %d is left early (break or return inside its body): not every element is considered", k), Fn: c})
+				}
+			}
+		}
+	}
 }
